@@ -237,6 +237,12 @@ Theorem C10_grpc_abort_refuted_orig :
     sr_source true n fuel (sr_init cs true) = Some src /\ src_fails src = false /\ src_bytes src = concat cs.
 Proof. exact grpc_abort_refuted_orig. Qed.
 
+(* ... and only that: on every stream that ends cleanly the original reader is the same function as the repaired one
+   (the _partial_orig form of the statements above: hypothesis "not aborted") *)
+Theorem C10_grpc_upload_exact_partial_orig :
+  forall n fuel (cs : list (list N)), sr_source true n fuel (sr_init cs false) = sr_source false n fuel (sr_init cs false).
+Proof. intros n fuel cs. apply sr_source_orig_clean. reflexivity. Qed.
+
 (* non-vacuity: a two-chunk upload aborted after the second chunk, read with 3-byte buffers *)
 Example C10_grpc_example_abort :
   sr_source false 3 9 (sr_init [[1; 2]; [3; 4; 5]] true) = Some [Data [1; 2; 3]; Fail] /\
@@ -259,3 +265,4 @@ Print Assumptions C10_grpc_upload_exact.
 Print Assumptions C10_grpc_reader_terminates.
 Print Assumptions C10_grpc_reads_prefix.
 Print Assumptions C10_grpc_abort_refuted_orig.
+Print Assumptions C10_grpc_upload_exact_partial_orig.
